@@ -3,7 +3,7 @@ import GMGModel.Solve
 # Generic facts about `exec`: append, frame (via the syntactic `writes`), repeated instructions
 core Lean only.
 -/
-namespace Cycle
+namespace MGCycle
 variable {V : Type}
 
 /-! ## memory updates -/
@@ -176,4 +176,4 @@ theorem exec_flatten_replicate_val (o : Ops V) (p : List Instr) (x : Ref) (F : V
       rw [exec_flatten_replicate_succ, iter_succ, ← hv m h]
       exact exec_flatten_replicate_val o p x F Inv hI hv n _ (hI m h)
 
-end Cycle
+end MGCycle
